@@ -6,6 +6,8 @@
   C12-RTP   route_rtp's decision, evaluated over a finite abstract domain of table states,
             equals the specified decision table; the SSRC latch is the only write
   C12-RTCP  route_rtcp consults exactly the SSRC-bearing fields of every RTCP packet type
+  C12-FRESH a routing decision is consumed by the very next delivery (loop over route_rtcp's result / immediate use of
+            route_rtp's); decisions for several packets are never collected ahead of their deliveries
 Does not decide: behaviour over interleavings beyond what the tables determine.
 """
 from __future__ import annotations
